@@ -9,6 +9,7 @@ import (
 	"errors"
 	"fmt"
 	"hash"
+	"io"
 	"sort"
 	"strings"
 	"time"
@@ -721,6 +722,14 @@ func (p *ACLPolicy) Stub() *ACLPolicyListStub {
 type ACLPolicies []*ACLPolicy
 type ACLPolicyListStubs []*ACLPolicyListStub
 
+// writeHashField adds a variable-length field to a content hash, followed by a
+// terminator that cannot occur in the text, so that field boundaries are part of
+// the hashed bytes.
+func writeHashField(h io.Writer, field string) {
+	h.Write([]byte(field))
+	h.Write([]byte{0})
+}
+
 func (p *ACLPolicy) SetHash(force bool) []byte {
 	if force || p.Hash == nil {
 		// Initialize a 256bit Blake2 hash (32 bytes)
@@ -737,12 +746,13 @@ func (p *ACLPolicy) SetHash(force bool) []byte {
 		// The Hash is really only used for replication to determine if a policy
 		// has changed and should be updated locally.
 
-		// Write all the user set fields
-		hash.Write([]byte(p.Name))
-		hash.Write([]byte(p.Description))
-		hash.Write([]byte(p.Rules))
+		// Write all the user set fields. Every variable-length field is terminated so
+		// that text moving across a field boundary ("ab"+"c" -> "a"+"bc") changes the hash.
+		writeHashField(hash, p.Name)
+		writeHashField(hash, p.Description)
+		writeHashField(hash, p.Rules)
 		for _, dc := range p.Datacenters {
-			hash.Write([]byte(dc))
+			writeHashField(hash, dc)
 		}
 
 		p.AddToHash(hash, false)
@@ -985,9 +995,9 @@ func (r *ACLRole) SetHash(force bool) []byte {
 		// The Hash is really only used for replication to determine if a role
 		// has changed and should be updated locally.
 
-		// Write all the user set fields
-		hash.Write([]byte(r.Name))
-		hash.Write([]byte(r.Description))
+		// Write all the user set fields (see ACLPolicy.SetHash about field boundaries)
+		writeHashField(hash, r.Name)
+		writeHashField(hash, r.Description)
 		for _, link := range r.Policies {
 			hash.Write([]byte(link.ID))
 		}
